@@ -70,3 +70,20 @@ Fixpoint layout_ok (l : list ltok) : bool :=
       && (match rest with t2 :: _ => negb (is_year t && is_year t2) | [] => true end)
       && layout_ok rest
   end.
+
+(* ---------- canonically written dates: every item zero padded to its width *)
+Definition zpad (w : nat) (n : Z) : text := let t := nat_text n in repeat 48%N (w - length t) ++ t.
+Record dt := { dt_y : Z; dt_m : Z; dt_d : Z; dt_hh : Z; dt_mm : Z; dt_ss : Z }.
+Definition ltok_render (v : dt) (t : ltok) : text :=
+  match t with
+  | LDay => zpad 2 (dt_d v) | LMonth => zpad 2 (dt_m v) | LYear4 => zpad 4 (dt_y v) | LYear2 => zpad 2 (dt_y v mod 100)
+  | LHour => zpad 2 (dt_hh v) | LMinute => zpad 2 (dt_mm v) | LSecond => zpad 2 (dt_ss v) | LPercent => [37%N] | LLit c => [c]
+  end.
+Definition layout_render (l : list ltok) (v : dt) : text := flat_map (ltok_render v) l.
+(* the strptime group each item fills: directive letter and value *)
+Definition ltok_group (v : dt) (t : ltok) : list (N * Z) :=
+  match t with
+  | LDay => [(100%N, dt_d v)] | LMonth => [(109%N, dt_m v)] | LYear4 => [(89%N, dt_y v)] | LYear2 => [(121%N, dt_y v mod 100)]
+  | LHour => [(72%N, dt_hh v)] | LMinute => [(77%N, dt_mm v)] | LSecond => [(83%N, dt_ss v)] | _ => []
+  end.
+Definition layout_groups (l : list ltok) (v : dt) : list (N * Z) := flat_map (ltok_group v) l.
